@@ -300,6 +300,57 @@ func runC15(c *kernel.Ctx) {
 			if t.Chance(1, 6) {
 				time.Sleep(time.Duration(t.Range(1, 3000)) * time.Millisecond)
 			}
+			if t.Chance(1, 8) {
+				// several connections publish at once: 2-3 goroutines store a few messages each at the same
+				// time (how they interleave inside the store is the Go scheduler's); when all calls have
+				// returned a crash image is taken: every one of them was acknowledged
+				ng := t.Range(2, 3)
+				per := t.Range(3, 8)
+				recs := make([][]*c15Msg, ng)
+				errs := make([]error, ng)
+				var wg sync.WaitGroup
+				for g := 0; g < ng; g++ {
+					for k := 0; k < per; k++ {
+						seq++
+						ch := []string{"a", "b"}[(seq+g)%2]
+						payload := append(bytes.Repeat([]byte{byte('a' + seq%26)}, []int{5, 200, 3000}[k%3]), []byte(fmt.Sprintf("#%d", seq))...)
+						recs[g] = append(recs[g], &c15Msg{ch: ch + "/", payload: payload, ttl: 86400, seq: seq})
+					}
+				}
+				for g := 0; g < ng; g++ {
+					g := g
+					wg.Add(1)
+					go func() {
+						defer wg.Done()
+						for _, r := range recs[g] {
+							m := message.New(message.Ssid(model.Ssid(77, []string{r.ch[:1]})), []byte(r.ch), r.payload)
+							m.TTL = r.ttl
+							r.id = append(message.ID(nil), m.ID...)
+							if err := st.Store(m); err != nil {
+								errs[g] = err
+								return
+							}
+						}
+					}()
+				}
+				wg.Wait()
+				for g := range errs {
+					if errs[g] != nil {
+						c.Failf("lost", "store-error", "Store returned an error: %v", errs[g])
+					}
+					acked = append(acked, recs[g]...)
+				}
+				synctest.Wait()
+				img := filepath.Join(c.Scratch, fmt.Sprintf("img%d", imgN))
+				imgN++
+				world.SparseCopyDir(live, img)
+				c.Fault("crash-image")
+				c.Fault("concurrent-stores")
+				c.Logf("%d goroutines stored %d messages each at the same time; image %d", ng, per, imgN-1)
+				c15Verify(c, img, acked, nil, "crash")
+				os.RemoveAll(prevImg)
+				prevImg = img
+			}
 		}
 		// end of this life: clean close or crash; the next life continues on what is on disk
 		next := filepath.Join(c.Scratch, fmt.Sprintf("live%d", cy+1))
